@@ -7,6 +7,7 @@ pub mod c05;
 pub mod c06;
 pub mod c07;
 pub mod req;
+pub mod c11;
 pub mod c14;
 pub mod c15;
 pub mod c16;
@@ -29,6 +30,7 @@ pub fn run(ctx: &mut Ctx, suite: &str) {
         "c06" => c06::run(ctx),
         "c08" => c06::run_c08(ctx),
         "c07" => c07::run(ctx),
+        "c11" => c11::run(ctx),
         "c14" => c14::run(ctx),
         "c15" => c15::run(ctx),
         "c16" => c16::run(ctx),
@@ -50,6 +52,8 @@ pub fn replay(ctx: &mut Ctx, tag: &str, args: &[&str]) {
         "c05" => c05::case(ctx, args[0], args[1]),
         "c06" | "c08" => c06::case(ctx, tag, args),
         "c07" => c07::case(ctx, args[0], args[1], args[2], args[3], args[4]),
+        "c11" => c11::case(ctx, args[0]),
+        "c11t" => c11::case_stress(ctx, args[0], args[1]),
         "c14" => c14::case_ops(ctx, args[0], args[1]),
         "c14a" => c14::case_ascii(ctx, args[0], args[1]),
         "c14n" => c14::case_num(ctx, args[0], args[1]),
